@@ -293,6 +293,11 @@ def parse_single_name_into_parts(name, strict=True):
                 # BibTeX doesn't allow whitespace escaping. Copy the slash and fall
                 # through to the normal case to handle the whitespace.
                 if escaped in whitespace:
+                    # `{\ ` still opens a special character (BibTeX only looks at
+                    # the backslash after the brace), with an empty control sequence.
+                    if bracestart:
+                        controlseq = False
+                        specialchar = True
                     word.append(char)
                     char = escaped
 
